@@ -393,6 +393,12 @@ fn check_callbacks(
 
 /// Execute `history` step by step. `fault_step` optionally arms a hard fault for one step
 /// (C12); the returned report then carries the fault outcome in `event_log`.
+/// Development aid: `VERIF_E1_TRACE=1` prints every executed operation to stderr.
+fn trace_on() -> bool {
+    static ON: std::sync::OnceLock<bool> = std::sync::OnceLock::new();
+    *ON.get_or_init(|| std::env::var_os("VERIF_E1_TRACE").is_some())
+}
+
 pub fn run_history(history: &History, cfg: &RunCfg, shim: &Shim) -> RunReport {
     let root_abs = cfg.root.as_os_str().as_bytes().to_vec();
     let mut model = Model::new(&root_abs, history);
@@ -429,6 +435,9 @@ pub fn run_history(history: &History, cfg: &RunCfg, shim: &Shim) -> RunReport {
             continue;
         }
         ctx.report.steps += 1;
+        if trace_on() {
+            eprintln!("TRACE {step} {op:?}");
+        }
         let model_before = model.clone();
         let exp = model.apply(op);
         let log: RefCell<Vec<LoggedCb>> = RefCell::new(Vec::new());
